@@ -74,7 +74,7 @@ def opts(tier):
         add_sensor(rng, spec, ctype, 0.35)
         add_scaling(rng, spec, ctype, p=0.4)
     o.scaling = scaling
-    return o
+    return gen.deepen(o, tier)
 
 
 def generate(rng, tier):
